@@ -794,6 +794,7 @@ class CGen:
         self.gname = {}
         self.refused = {}             # ir function -> reason
         self.used_helpers = set()
+        self.odd_widths = set()
         self._emitted = set()
         k = 0
         for name in mod.funcs:
@@ -824,6 +825,9 @@ class CGen:
                 return 'uint%d_t' % n
             if n == 128:
                 return 'vp_u128'
+            if 1 < n < 256:
+                self.odd_widths.add(n)
+                return 'vp_u%d' % n
             raise Unsupported('integer width i%d' % n)
         if k == 'float':
             return 'float'
@@ -967,6 +971,11 @@ class CGen:
             return '((uint%d_t)%dU)' % (bits, v) if bits < 32 else '%dU' % v
         if bits == 64:
             return '%dULL' % v
+        if bits not in (128,) and bits < 64:
+            return '((vp_u%d)%dULL)' % (bits, v)
+        if bits not in (128,) and bits > 64:
+            hi, lo = v >> 64, v & ((1 << 64) - 1)
+            return '((((vp_u%d)%dULL) << 64) | (vp_u%d)%dULL)' % (bits, hi, bits, lo)
         if bits == 128:
             hi, lo = v >> 64, v & ((1 << 64) - 1)
             if hi == 0:
@@ -1035,7 +1044,7 @@ class FuncGen:
                 self.cg_ref_func(x)
                 return cn
             if x in self.mod.globals:
-                return '(&%s)' % self.cg.gname[x]
+                return '((%s*)&%s)' % (self.cg.ctype(self.mod.globals[x][0]), self.cg.gname[x])
             raise Unsupported('unknown global @' + x)
         if k == 'undef' or k == 'zero':
             ct = self.cg.ctype(t)
@@ -1176,12 +1185,12 @@ class FuncGen:
             fn = {'add': 'plus', 'sub': 'minus', 'mul': 'mult'}[op]
             if pre is not None:
                 if 'nsw' in flags:
-                    pre.append('__CPROVER_assert(!__CPROVER_overflow_%s(%s, %s), "UB.signed-overflow: %s nsw in %s");'
-                               % (fn, sx, sy, op, S))
+                    pre.append('__CPROVER_assert(!%s, "UB.signed-overflow: %s nsw in %s");'
+                               % (ovf(sym, n, sx, sy, True), op, S))
                 if 'nuw' in flags:
-                    pre.append('__CPROVER_assert(!__CPROVER_overflow_%s((%s)%s, (%s)%s), "UB.unsigned-wrap: %s nuw in %s");'
-                               % (fn, ct, x, ct, y, op, S))
-            w = 'vp_u128' if n == 128 else ('uint64_t' if n == 64 else 'uint32_t')
+                    pre.append('__CPROVER_assert(!%s, "UB.unsigned-wrap: %s nuw in %s");'
+                               % (ovf(sym, n, '((%s)%s)' % (ct, x), '((%s)%s)' % (ct, y), False), op, S))
+            w = wide_t(n)
             return '((%s)((%s)%s %s (%s)%s))' % (ct, w, x, sym, w, y)
         if op in ('and', 'or', 'xor'):
             sym = {'and': '&', 'or': '|', 'xor': '^'}[op]
@@ -1189,7 +1198,7 @@ class FuncGen:
         if op in ('shl', 'lshr', 'ashr'):
             if pre is not None:
                 pre.append('__CPROVER_assert(%s < %d, "UB.shift-count: %s in %s");' % (y, n, op, S))
-            w = 'vp_u128' if n == 128 else ('uint64_t' if n == 64 else 'uint32_t')
+            w = wide_t(n)
             if op == 'shl':
                 if pre is not None and ('nsw' in flags or 'nuw' in flags):
                     raise Unsupported('shl with nsw/nuw')
@@ -1595,11 +1604,11 @@ class FuncGen:
             fn = {'add': 'plus', 'sub': 'minus', 'mul': 'mult'}[base[1:]]
             sym = {'add': '+', 'sub': '-', 'mul': '*'}[base[1:]]
             ct = cg.ctype(a[0][2])
-            w = 'vp_u128' if n == 128 else ('uint64_t' if n == 64 else 'uint32_t')
+            w = wide_t(n)
             if base[0] == 's':
-                ov = '__CPROVER_overflow_%s(%s, %s)' % (fn, self.sv(a[0]), self.sv(a[1]))
+                ov = ovf(sym, n, self.sv(a[0]), self.sv(a[1]), True)
             else:
-                ov = '__CPROVER_overflow_%s((%s)%s, (%s)%s)' % (fn, ct, self.val(a[0]), ct, self.val(a[1]))
+                ov = ovf(sym, n, '((%s)%s)' % (ct, self.val(a[0])), '((%s)%s)' % (ct, self.val(a[1])), False)
             nm = res()
             out.append('  %s.f0 = (%s)((%s)%s %s (%s)%s); %s.f1 = %s;'
                        % (nm, ct, w, self.val(a[0]), sym, w, self.val(a[1]), nm, ov))
@@ -1639,8 +1648,28 @@ class FuncGen:
         raise Unsupported('intrinsic ' + name)
 
 
+def ovf(sym, n, x, y, signed):
+    """overflow predicate by exact arithmetic in a wider vector (CBMC's __CPROVER_overflow_* builtins promote
+    non-standard operand widths such as the i33 clang uses for mixed-sign __builtin_*_overflow, and then miss the overflow)"""
+    k = (2 * n + 2) if sym == '*' else n + 2
+    wk = '__CPROVER_bitvector[%d]' % k
+    tn = sint(n) if signed else ('uint%d_t' % n if n in (8, 16, 32, 64) else 'vp_u%d' % n)
+    r = '(((%s)%s) %s ((%s)%s))' % (wk, x, sym, wk, y)
+    return '(%s != (%s)(%s)%s)' % (r, wk, tn, r)
+
+
+def wide_t(n):
+    if n <= 32:
+        return 'uint32_t'
+    if n <= 64 and n in (64,):
+        return 'uint64_t'
+    return 'vp_u%d' % n
+
+
 def sint(n):
-    return 'vp_s128' if n == 128 else 'int%d_t' % n
+    if n in (8, 16, 32, 64):
+        return 'int%d_t' % n
+    return 'vp_s%d' % n
 
 
 def smin(n):
@@ -1648,7 +1677,9 @@ def smin(n):
         return '((vp_s128)(((vp_u128)1) << 127))'
     if n == 64:
         return '(-9223372036854775807LL - 1)'
-    return '((%s)(%d))' % (sint(n), -(1 << (n - 1)))
+    if n in (8, 16, 32):
+        return '((%s)(%d))' % (sint(n), -(1 << (n - 1)))
+    return '((vp_s%d)(((vp_u%d)1) << %d))' % (n, n, n - 1)
 
 
 PRELUDE = r'''
@@ -1776,11 +1807,14 @@ def translate(ll_text, stubs=(), div_helpers=False, loop_contracts=None, only=No
     for g, (ty, init, const) in mod.globals.items():
         try:
             ct = cg.ctype(ty)
-            gl.append('%s%s %s%s;' % ('', ct, cg.gname[g], ginit(cg, mod, ty, init)))
+            gi = ginit(cg, mod, ty, init)
+            is_const = const and init is not None and 'not translated' not in gi
+            gl.append('%s%s %s%s;' % ('const ' if is_const else '', ct, cg.gname[g], gi))
         except Unsupported as e:
             gl.append('/* global %s refused: %s */' % (san(g), e))
     types = cg.emit_types()
-    tr.head = '\n'.join([PRELUDE, types, helper_text(cg.used_helpers), '\n'.join(h + ';' for _, h in protos)])
+    odd = ''.join('typedef unsigned __CPROVER_bitvector[%d] vp_u%d; typedef __CPROVER_bitvector[%d] vp_s%d;\n' % (n, n, n, n) for n in sorted(cg.odd_widths))
+    tr.head = '\n'.join([PRELUDE + odd, types, helper_text(cg.used_helpers), '\n'.join(h + ';' for _, h in protos)])
     tr.globals_text = '\n'.join(gl)
     tr.bodies = dict(bodies)
     tr.c_text = '\n'.join([tr.head, '/*STUBS*/', tr.globals_text] + [t for _, t in bodies])
